@@ -430,10 +430,27 @@ def drive_c14(ctx):
                 types.append(str(cls.amqp_type(a)))
             except Exception:  # noqa
                 types.append('<missing>')
+        # the constructor takes its arguments POSITIONALLY in wire order: distinct valid values passed by position are
+        # read back by name
+        pos_in, pos_back = [], []
+        sm_ = [m for m in framegen.METHODS if m[0] == str(cls.name)]
+        if sm_ and slots:
+            kw_ = framegen.method_kwargs(ctx.rng, sm_[0])
+            for a_, ty_, d_ in sm_[0][3]:          # (a table argument given as None / {} is stored as a fresh {}: not a probe value)
+                if ty_ == 'table' and not kw_.get(a_):
+                    kw_[a_] = {'probe': 1}
+            if all(a in kw_ for a in slots):
+                try:
+                    po = cls(*[kw_[a] for a in slots])
+                    pos_in = [abstract(kw_[a]) for a in slots]
+                    pos_back = [abstract(getattr(po, a, None)) for a in slots]
+                except Exception as e:  # noqa
+                    pos_in = [abstract(kw_[a]) for a in slots]
+                    pos_back = [{'t': 'other', 'name': 'ctor:' + type(e).__name__} for _ in slots]
         rec.add('CatalogEntry', P, nt=True, sigx=str(cls.name), key=as_int(key), name=str(cls.name), frame_id=as_int(cls.frame_id), index=as_int(cls.index),
                 slots=slots, types=types, sync=bool(cls.synchronous), sync_is_bool=isinstance(cls.synchronous, bool),
                 responses=[str(x) for x in cls.valid_responses], defaults=defaults,
-                docs=[docs.get(a, '') for a in slots], attributes=list(cls.attributes()))
+                docs=[docs.get(a, '') for a in slots], attributes=list(cls.attributes()), pos_in=pos_in, pos_back=pos_back)
     pr = commands.Basic.Properties
     slots = list(pr.__slots__)
     o = pr()
@@ -450,18 +467,18 @@ def drive_c14(ctx):
     urng = ctx.rng
     for _ in range(150 if ctx.quick else 1500):
         try:
-            n_, ch_, fo = _frame.unmarshal(wiregen.rand_wire_frame(urng, lenient=True))
+            n_, ch_, fo = actions.unmarshal3(wiregen.rand_wire_frame(urng, lenient=True))
             _frame.marshal(fo, ch_)
         except Exception:  # noqa
             pass
         try:
             f_, c_ = framegen.rand_frame(urng)
-            _frame.unmarshal(_frame.marshal(f_, c_))
+            actions.unmarshal3(_frame.marshal(f_, c_))
         except Exception:  # noqa
             pass
     for label, b in itertools.islice(fuzz_inputs(ctx, 1), 0, None, 17 if ctx.quick else 3):
         try:
-            _frame.unmarshal(b)
+            actions.unmarshal3(b)
         except Exception:  # noqa
             pass
     items2 = list(commands.INDEX_MAPPING.items())
@@ -524,13 +541,15 @@ def drive_c17(ctx):
             return [as_int(v) for v in x]
         except TypeError:
             return [-1]
-    rec.add('Constants', P, nt=True, c={
-        'FRAME_METHOD': as_int(constants.FRAME_METHOD), 'FRAME_HEADER': as_int(constants.FRAME_HEADER),
-        'FRAME_BODY': as_int(constants.FRAME_BODY), 'FRAME_HEARTBEAT': as_int(constants.FRAME_HEARTBEAT),
-        'FRAME_MIN_SIZE': as_int(constants.FRAME_MIN_SIZE), 'FRAME_END': as_int(constants.FRAME_END),
-        'FRAME_HEADER_SIZE': as_int(constants.FRAME_HEADER_SIZE), 'FRAME_MAX_SIZE': as_int(constants.FRAME_MAX_SIZE),
-        'VERSION': _l(constants.VERSION), 'AMQP': _l(constants.AMQP),
-        'FRAME_END_CHAR': _l(constants.FRAME_END_CHAR), 'REPLY_SUCCESS': as_int(constants.REPLY_SUCCESS)})
+    def constants_event(**extra):
+        rec.add('Constants', P, nt=True, **extra, c={
+            'FRAME_METHOD': as_int(constants.FRAME_METHOD), 'FRAME_HEADER': as_int(constants.FRAME_HEADER),
+            'FRAME_BODY': as_int(constants.FRAME_BODY), 'FRAME_HEARTBEAT': as_int(constants.FRAME_HEARTBEAT),
+            'FRAME_MIN_SIZE': as_int(constants.FRAME_MIN_SIZE), 'FRAME_END': as_int(constants.FRAME_END),
+            'FRAME_HEADER_SIZE': as_int(constants.FRAME_HEADER_SIZE), 'FRAME_MAX_SIZE': as_int(constants.FRAME_MAX_SIZE),
+            'VERSION': _l(constants.VERSION), 'AMQP': _l(constants.AMQP),
+            'FRAME_END_CHAR': _l(constants.FRAME_END_CHAR), 'REPLY_SUCCESS': as_int(constants.REPLY_SUCCESS)})
+    constants_event()
     rec.add('UnmarshalingExc', P, nt=True, base=issubclass(exceptions.UnmarshalingException, exceptions.PAMQPException),
             amqp=issubclass(exceptions.UnmarshalingException, exceptions.AMQPError))
     # every code 0..700 looked up in the three ways a client can (subscript, in, get); then the whole table AGAIN:
@@ -558,6 +577,25 @@ def drive_c17(ctx):
             type('App3' + _c.__name__, (_c,), {'value': 310, 'name': 'NOT-DELIVERED'})
         except TypeError:
             pass
+    # ... and ordinary use of the codec: protocol headers of every neighbouring version decoded and built, a storm of
+    # everything else; the constants and the table are read AGAIN afterwards
+    from pamqp import frame as _frame17, header as _header17
+    for mj in (0, 1, 8, 9, 255):
+        for mn in (0, 8, 9, 10, 91, 255):
+            for rv in (0, 1, 2, 9, 255):
+                try:
+                    actions.unmarshal3(b'AMQP\x00' + bytes([mj, mn, rv]))
+                    _frame17.marshal(_header17.ProtocolHeader(mj, mn, rv), 0)
+                    _header17.ProtocolHeader().unmarshal(b'AMQP\x00' + bytes([mj, mn, rv]))
+                except Exception:  # noqa
+                    pass
+    for bad in (b'AMQP', b'AMQP\x01\x01\x08\x00', b'AMQP\x00\x00\x09', b'AMQQ\x00\x00\x09\x01'):
+        try:
+            actions.unmarshal3(bad)
+        except Exception:  # noqa
+            pass
+    generic_storm(ctx)
+    constants_event(second_pass=True)
     items = list(exceptions.CLASS_MAPPING.items())
     rec.add('ReplyKeys', P, nt=True, keys=sorted(as_int(k) for k, _ in items), classes=sorted(set(c.__name__ for _, c in items)))
     for key, cls in items:
@@ -743,6 +781,14 @@ def drive_c19(ctx):
     rec, rng = ctx.rec, ctx.rng
     P = ['C19']
     reps = 1 if ctx.quick else 20
+    # class-level observations of ALL classes in ONE interpreter, in an order of this shard's own (what one class leaves
+    # behind for another -- e.g. anything keyed by the short class name -- needs both in the same process)
+    order = list(framegen.METHODS)
+    rng.shuffle(order)
+    if ctx.shard % 2:
+        order.sort(key=lambda sm: sm[0].split('.')[1] + ('' if ctx.shard % 4 == 1 else sm[0]), reverse=ctx.shard % 8 >= 4)
+    for sm in order:
+        rec.add('Observe', P, nt=True, stage='class-sweep', **actions.observe(framegen.class_of(sm[0])()))
     for rep in range(reps):
         for i, sm in enumerate(framegen.METHODS):
             if not mine(ctx, i + rep):
@@ -761,7 +807,7 @@ def drive_c19(ctx):
                     setattr(h_, a, weird)
                     rec.add('Observe', P, nt=True, stage='after-setattr-exotic', **actions.observe(h_))
             try:
-                g = frame.unmarshal(frame.marshal(framegen.rand_method(rng, sm), 1))[2]
+                g = actions.unmarshal3(frame.marshal(framegen.rand_method(rng, sm), 1))[2]
                 rec.add('Observe', P, nt=True, stage='decoded', **actions.observe(g))
             except Exception:  # noqa
                 pass
@@ -770,7 +816,7 @@ def drive_c19(ctx):
             rec.add('Observe', P, nt=True, stage='constructed', **actions.observe(h.properties))
             h.properties.priority = rng.randint(0, 9)
             rec.add('Observe', P, nt=True, stage='after-setattr', **actions.observe(h.properties))
-            g = frame.unmarshal(frame.marshal(framegen.rand_header(rng), 1))[2]
+            g = actions.unmarshal3(frame.marshal(framegen.rand_header(rng), 1))[2]
             rec.add('Observe', P, nt=True, stage='decoded', **actions.observe(g.properties))
             rec.add('Observe', P, nt=True, stage='default', **actions.observe(commands.Basic.Properties()))
 
@@ -1518,6 +1564,14 @@ def drive_c15(ctx):
             rec.add('EncodeArg', P, nt=True, **actions.encode_arg('timestamp', v))
         for w in wires:
             rec.add('DecodeValue', P, nt=True, **actions.decode_value(b'T' + struct.pack('>Q', w), 'top'))
+        # every path a timestamp can take through a FRAME: the timestamp property, the headers table, method arguments
+        from pamqp import commands as _c15, header as _h15
+        for v in inst[:16]:
+            for fr in (_h15.ContentHeader(0, 1, _c15.Basic.Properties(timestamp=v)),
+                       _h15.ContentHeader(0, 1, _c15.Basic.Properties(timestamp=v, headers={'at': v, 'l': [v]}, priority=1)),
+                       _c15.Queue.Declare(queue='q', arguments={'x-since': v}),
+                       _c15.Connection.StartOk(client_properties={'started': v, 'n': {'t': v}})):
+                rec.add('RoundTrip', P, nt=True, **actions.roundtrip(fr, 1))
         # switch zones in the middle of a run: the previous zone must leave no trace
         z2 = rng.choice(zones)
         rec.add('SetTZ', P, nt=True, **actions.set_tz(z2))
@@ -1734,7 +1788,7 @@ def generic_storm(ctx, frames=()):
             f_, c_ = framegen.rand_frame(rng)
             if rng.random() < 0.5 and hasattr(f_, 'properties'):
                 f_.properties.headers = rng.choice([{}, {'k': {}}, {'k': []}])
-            n_, ch_, fo = frame.unmarshal(frame.marshal(f_, c_))
+            n_, ch_, fo = actions.unmarshal3(frame.marshal(f_, c_))
             for obj in ([fo.properties] if hasattr(fo, 'properties') else []) + [fo]:
                 for a in getattr(type(obj), '__slots__', []):
                     x = getattr(obj, a, None)
@@ -1749,8 +1803,63 @@ def generic_storm(ctx, frames=()):
             pass
     for _ in range(40):            # frames a peer may send, decoded and re-encoded
         try:
-            n_, ch_, fo = frame.unmarshal(wiregen.rand_wire_frame(rng, lenient=True))
+            n_, ch_, fo = actions.unmarshal3(wiregen.rand_wire_frame(rng, lenient=True))
             frame.marshal(fo, ch_)
+        except Exception:  # noqa
+            pass
+    # every one of the 64 classes used once in THIS interpreter (class-level state shared between classes -- anything keyed
+    # by a short name, an id, a position -- needs both classes in one process)
+    for sm in framegen.METHODS:
+        try:
+            f_ = framegen.rand_method(rng, sm)
+            f_.attributes()
+            dict(f_)
+            actions.unmarshal3(frame.marshal(f_, 1))
+        except Exception:  # noqa
+            pass
+    # amplification: whatever ONE refused call leaves behind (a counter, a stack entry, a buffer), hundreds leave it
+    # hundreds of times -- every kind of refusal, placed under several levels of containers, repeated
+    from pamqp import encode as _enc, decode as _dec
+    refused = [object(), 1 << 64, 1e39, 'k' * 70000 and {'\u20ac' * 100: 1}, __import__('decimal').Decimal('NaN')]
+    for bad in refused:
+        shapes = [{'a': [{'b': [{'c': bad}]}]}, [[[[bad]]]], {'a': {'b': {'c': {'d': bad}}}}, [{'k': [bad, 1]}, 2]]
+        for shape in shapes:
+            for _ in range(60):
+                for fn in (_enc.field_table, _enc.field_array, _enc.encode_table_value):
+                    try:
+                        fn(shape if not (fn is _enc.field_table and not isinstance(shape, dict)) else {'w': shape})
+                    except Exception:  # noqa
+                        pass
+    bad_wire = [b'Z', b'T' + _st.pack('>Q', 2 ** 64 - 1), b'A' + _st.pack('>I', 100) + b'V', b'S' + _st.pack('>I', 2) + b'\xc3(', b'I\x00']
+    for leaf in bad_wire:
+        for kinds in ('FFFF', 'AAAA', 'FAFA'):
+            v = leaf
+            for k in kinds:
+                body = v if k == 'A' else b'\x01k' + v
+                v = k.encode() + _st.pack('>I', len(body)) + body
+            tbl = b'\x01k' + v
+            fr = wiregen.envelope(1, 0, _st.pack('>HH', 10, 11) + _st.pack('>I', len(tbl)) + tbl + wiregen.short_str('PLAIN')
+                                  + wiregen.long_str(b'') + wiregen.short_str('en_US'))
+            hd = wiregen.envelope(2, 1, _st.pack('>HHQH', 60, 0, 0, 0x2000) + _st.pack('>I', len(tbl)) + tbl)
+            for _ in range(60):
+                for b_ in (fr, hd):
+                    try:
+                        actions.unmarshal3(b_)
+                    except Exception:  # noqa
+                        pass
+                __import__('observers').with_budget(_dec.embedded_value, v)
+    for _ in range(200):
+        for bad_kw in (dict(queue='a\n'), dict(queue='q' * 300), dict(ticket=5)):
+            try:
+                commands.Queue.Declare(**bad_kw)
+            except Exception:  # noqa
+                pass
+        try:
+            frame.marshal(commands.Basic.Qos(prefetch_count=-1), 1)
+        except Exception:  # noqa
+            pass
+        try:
+            frame.marshal(commands.Basic.Ack(delivery_tag='x'), 1)
         except Exception:  # noqa
             pass
     actions.toggle('false')
@@ -2039,33 +2148,50 @@ def conn_sessions(ctx, props):
         buf = {'c': b'', 's': b''}        # receive buffer of the OTHER side, per sending direction
         queue = {'c': [], 's': []}        # scripted frames in flight per direction
 
+        def report(d, got, want, mlen):
+            """got: (n, ch, f) from the decoder, or an exception"""
+            ev = {'dir': d, 'ch': -1, 'kind': 'refused', 'name': '', 'size': 0, 'wire': 0, 'fm': 0, 'cm': 0,
+                  'sync': False, 'resp': [], 'want': want, 'mlen': mlen}
+            if isinstance(got, tuple):
+                n, ch, f = got
+                kind = {'ProtocolHeader': 'proto', 'Heartbeat': 'heartbeat', 'ContentHeader': 'header',
+                        'ContentBody': 'body'}.get(type(f).__name__, 'method')
+                ev.update(ch=as_int(ch), kind=kind, wire=as_int(n))
+                if kind == 'method':
+                    ev['name'] = str(getattr(f, 'name', '?'))
+                    ev['sync'] = bool(getattr(f, 'synchronous', False))
+                    ev['resp'] = [str(x) for x in getattr(f, 'valid_responses', [])]
+                    if ev['name'] in ('Connection.Tune', 'Connection.TuneOk'):
+                        ev['fm'], ev['cm'] = as_int(f.frame_max), as_int(f.channel_max)
+                elif kind == 'header':
+                    ev['size'] = as_int(f.body_size)
+                elif kind == 'body':
+                    ev['size'] = as_int(len(f.value))
+            else:
+                ev['exc'] = type(got).__name__
+            rec.add('ConnFrame', props, nt=True, **ev)
+
         def deliver(d, everything):
+            # the receiver knows nothing of the script: it decodes whenever bytes arrive.  The HARNESS knows where the
+            # scripted frames end (their marshalled lengths), so a frame the decoder refuses, or a wrong consumed count,
+            # is reported once and the stream is re-synchronised at the next scripted frame boundary.
             while wire[d]:
                 k = len(wire[d]) if (everything and rng.random() < 0.4) else rng.randint(1, max(1, min(len(wire[d]), rng.choice([1, 7, 8, 50, 5000, 200000]))))
                 buf[d] += wire[d][:k]
                 wire[d] = wire[d][k:]
-                while buf[d]:
+                while buf[d] and queue[d]:
+                    want, mlen = queue[d][0]
                     try:
-                        n, ch, f = frame.unmarshal(buf[d])
-                    except exceptions.UnmarshalingException:
-                        break
-                    want, mlen = queue[d].pop(0) if queue[d] else ({'kind': 'none', 'name': '', 'size': 0, 'ch': -1, 'fm': 0, 'cm': 0, 'dir': d}, -1)
-                    kind = {'ProtocolHeader': 'proto', 'Heartbeat': 'heartbeat', 'ContentHeader': 'header',
-                            'ContentBody': 'body'}.get(type(f).__name__, 'method')
-                    ev = {'dir': d, 'ch': as_int(ch), 'kind': kind, 'name': '', 'size': 0, 'wire': as_int(n), 'fm': 0, 'cm': 0,
-                          'sync': False, 'resp': [], 'want': want, 'mlen': mlen}
-                    if kind == 'method':
-                        ev['name'] = str(getattr(f, 'name', '?'))
-                        ev['sync'] = bool(getattr(f, 'synchronous', False))
-                        ev['resp'] = [str(x) for x in getattr(f, 'valid_responses', [])]
-                        if ev['name'] in ('Connection.Tune', 'Connection.TuneOk'):
-                            ev['fm'], ev['cm'] = as_int(f.frame_max), as_int(f.channel_max)
-                    elif kind == 'header':
-                        ev['size'] = as_int(f.body_size)
-                    elif kind == 'body':
-                        ev['size'] = as_int(len(f.value))
-                    rec.add('ConnFrame', props, nt=True, **ev)
-                    buf[d] = buf[d][n:]
+                        got = actions.unmarshal3(buf[d])
+                    except exceptions.UnmarshalingException as e_:
+                        if len(buf[d]) < mlen:
+                            break                     # incomplete: wait for more data
+                        got = e_                      # a complete scripted frame is in the buffer and was refused
+                    except Exception as e_:  # noqa
+                        got = e_
+                    queue[d].pop(0)
+                    report(d, got, want, mlen)
+                    buf[d] = buf[d][mlen:]            # (== the consumed count whenever the decoder is right)
                 if not everything and rng.random() < 0.5:
                     return
 
